@@ -378,6 +378,42 @@ def judge_out(recs, shards=16, heap="768m", timeout=3000):
     return verdicts, results, frames
 
 
+SLICE_CFG = """SPECIFICATION Spec
+CHECK_DEADLOCK FALSE
+"""
+
+
+def judge_slices(recs, shards=16, heap="768m", timeout=3000):
+    """SliceJudge.tla: recs = [{"tid", "validate", "parsed", "stream": [...], "rets": [[...], ...]}] -> {tid: verdict}"""
+    if not recs:
+        return {}, []
+    order = sorted(recs, key=lambda t: -(len(t["stream"]) + sum(len(r) for r in t["rets"])))
+    nsh = max(1, min(shards, len(recs)))
+    buckets = [[] for _ in range(nsh)]
+    loads = [0] * nsh
+    for t in order:
+        i = loads.index(min(loads))
+        buckets[i].append(t)
+        loads[i] += len(t["stream"]) + sum(len(r) for r in t["rets"]) + 50
+    jobs = []
+    for i, b in enumerate(buckets):
+        path = os.path.join(common.scratch(), f"fsl-{os.getpid()}-{id(recs) % 100000}-{i}.json")
+        with open(path, "w", encoding="utf-8") as f:
+            json.dump(b, f)
+        jobs.append(dict(module="SliceJudge", cfg=SLICE_CFG, env={"VERIF_TRACES": path}, heap=heap, timeout=timeout))
+    results = tlc.run_many(jobs)
+    verdicts = {}
+    for res in results:
+        if not res.ok():
+            raise MachineryFailure("SliceJudge TLC failure: " + str(res.error or res.invariant) + "\n" + "\n".join(res.out.splitlines()[-40:]))
+        for t in res.tuples("LVERDICT"):
+            verdicts[t[1]] = (t[2], t[3], t[4], t[5])
+    missing = [t["tid"] for t in recs if t["tid"] not in verdicts]
+    if missing:
+        raise MachineryFailure(f"SliceJudge: {len(missing)} traces without verdict, e.g. {missing[:5]}")
+    return verdicts, results
+
+
 def judge(traces, shards=16, heap="768m", timeout=3000):
     """traces: list of {"tid", "validate", "parsed", "quit", "ev"} -> {tid: (verdict, clause, pos, detail)}"""
     if not traces:
